@@ -401,6 +401,7 @@ def run_inproc(sc):
                 deps.append((which, cnt, d))
             jobs.append(dict(deps=deps, locks=None, job=fj))
         out = []
+        pops = []
 
         def snap():
             files = sorted((f.name, int(f.read_text().split("\n")[0])) for f in (root / "tok").glob("*.token"))
@@ -418,13 +419,21 @@ def run_inproc(sc):
                     locks = Locks()
                     locks.acquire()
                     taken = 0
+                    took_p = False
                     for which, cnt, d in j["deps"]:
                         try:
                             locks.append(d.lock().acquire())
                             taken += 1
+                            if which == "p":
+                                took_p = True
+                                pops.append(["acquire", i, "ok", int(ptok.available)])
                         except LockError:
+                            if which == "p":
+                                pops.append(["acquire", i, "lockerror", int(ptok.available)])
                             d.check()
                             locks.release()
+                            if took_p:
+                                pops.append(["release", i, "ok", int(ptok.available)])
                             res = "abort:%d" % taken
                             break
                     else:
@@ -435,9 +444,11 @@ def run_inproc(sc):
                 else:
                     j["locks"].release()
                     j["locks"] = None
+                    if any(which == "p" for which, _, _ in j["deps"]):
+                        pops.append(["release", i, "ok", int(ptok.available)])
             # deliver our own fs events at once (single process; the handler ignores them)
             out.append(dict(op=op, res=res, obs=snap()))
-        return dict(steps=out, error=None)
+        return dict(steps=out, pops=pops, error=None)
     finally:
         shutil.rmtree(root, ignore_errors=True)
 
@@ -491,20 +502,86 @@ def run_realobs(sc):
         shutil.rmtree(root, ignore_errors=True)
 
 
-def main():
-    sc = json.load(sys.stdin)
+def run_one(sc):
     kind = sc.get("kind", "fs")
     if kind == "fs":
-        res = run_fs(sc)
-    elif kind == "inproc":
-        res = run_inproc(sc)
-    elif kind == "realobs":
-        res = run_realobs(sc)
-    elif kind == "stress":
+        return run_fs(sc)
+    if kind == "inproc":
+        return run_inproc(sc)
+    if kind == "realobs":
+        return run_realobs(sc)
+    if kind == "stress":
         from tokstress import run_stress
-        res = run_stress(sc)
+        return run_stress(sc)
+    raise ValueError(kind)
+
+
+def run_forked(sc, timeout):
+    """Each scenario runs in its own (forked) process under a hard timeout."""
+    import select
+    import signal
+    r, w = os.pipe()
+    pid = os.fork()
+    if pid == 0:
+        code = 0
+        try:
+            os.close(r)
+            try:
+                res = run_one(sc)
+            except BaseException as e:  # noqa
+                import traceback
+                res = dict(error="harness exception: %s" % traceback.format_exc()[-1500:], steps=[])
+            with os.fdopen(w, "w") as fp:
+                fp.write(json.dumps(res))
+        except BaseException:  # noqa
+            code = 1
+        finally:
+            os._exit(code)
+    os.close(w)
+    chunks = []
+    deadline = time.time() + timeout
+    timed_out = False
+    with os.fdopen(r, "rb") as fp:
+        while True:
+            left = deadline - time.time()
+            if left <= 0:
+                timed_out = True
+                break
+            ready, _, _ = select.select([fp], [], [], left)
+            if not ready:
+                timed_out = True
+                break
+            b = os.read(fp.fileno(), 1 << 16)
+            if not b:
+                break
+            chunks.append(b)
+    if timed_out:
+        try:
+            os.killpg(os.getpgid(pid), 0)
+        except Exception:
+            pass
+        try:
+            os.kill(pid, signal.SIGKILL)
+        except Exception:
+            pass
+    try:
+        os.waitpid(pid, 0)
+    except Exception:
+        pass
+    if timed_out:
+        return dict(error="timeout after %ss" % timeout, steps=[], timeout=True)
+    try:
+        return json.loads(b"".join(chunks).decode())
+    except Exception:
+        return dict(error="no answer from the scenario process", steps=[])
+
+
+def main():
+    payload = json.load(sys.stdin)
+    if "scenarios" in payload:
+        res = [run_forked(sc, payload.get("timeout", 30)) for sc in payload["scenarios"]]
     else:
-        raise ValueError(kind)
+        res = run_one(payload)
     sys.stdout.flush()
     print(json.dumps(res))
 
